@@ -150,7 +150,14 @@ for _base, _param in (("src", "value"), ("mul3", "factor"), ("two_cfg", "addend"
 MENU_PROGS: List[Tuple[str, ...]] = [((m,) if m.startswith("src@") else ("src", m)) for m in MENU_SYMBOLS] + \
     [((m, "probe_r") if m.startswith("src@") else ("src", m, "probe_r")) for m in MENU_SYMBOLS]
 
-ALL = [s for s in SYMBOLS if s not in ("interrupt", "abort", "sysexit") and "@" not in s]  # KeyboardInterrupt-class aborts are exercised by C06 only
+ALL = [s for s in SYMBOLS if s not in ("interrupt", "abort", "sysexit") and "@" not in s]
+# beyond the small scope: a few long pipelines (61, 41 and 33 nodes; every node kind that chains) and a context of 200 keys
+LONG_PROGS: List[Tuple[str, ...]] = [
+    ("src",) + ("mul3", "probe_r", "ren_r_factor", "mul") * 15,
+    ("sweep_src",) + ("slice_muldef", "slice_probe") * 20,
+    ("src",) + ("ctxw", "tmpl_a", "del_a", "probe_factor", "muldef", "ren_factor_a", "failif", "del_a") * 4,
+]
+WIDE_CONTEXT: Dict[str, Any] = {f"wide_{i:03d}": (float(i) if i % 3 else f"s{i}") for i in range(200)}  # KeyboardInterrupt-class aborts are exercised by C06 only
 # one representative per kind
 PRIME = ["src", "srcdef", "paysrc", "mul", "muldef", "two", "ctxw", "fail", "sum", "probe_factor", "gainprobe",
          "ren_r_factor", "del_factor", "tmpl_a", "slice_mul", "sweep_op", "sink_ctx", "bogus"]
